@@ -251,6 +251,80 @@ func C17(c *core.Ctx) error {
 			c.Ev.Sample(map[string]any{"case": id, "header": header})
 		}
 	})
+	// ---- several source packages whose mocks share an output package NAME (different directories), each with its
+	// own header settings at package level: every file carries exactly its own package's boilerplate and constraint
+	for _, tmpl := range []string{"testify", "matryer"} {
+		for _, fmtr := range []string{"gofmt", "noop"} {
+			id := fmt.Sprintf("three source packages, one output package name, own header settings each, template=%s formatter=%s", tmpl, fmtr)
+			type hp struct{ tags, boiler string }
+			want := map[string]hp{"p1": {"alpha", "// Header of p1\n"}, "p2": {"beta && !alpha", "// Header of p2\n// second line\n"}, "p3": {"", ""}}
+			files := map[string]string{}
+			pkgs := core.M{}
+			for name, h := range want {
+				files[name+"/x.go"] = "package " + name + "\n\ntype I interface{ M(a int) error }\n"
+				td := core.M{}
+				if h.tags != "" {
+					td["mock-build-tags"] = h.tags
+					files["boiler_"+name+".txt"] = h.boiler
+					td["boilerplate-file"] = "boiler_" + name + ".txt"
+				}
+				pkgs[core.ModPath+"/"+name] = core.M{"config": core.M{"template-data": td}, "interfaces": core.M{"I": core.M{}}}
+			}
+			cfg := core.M{"template": tmpl, "formatter": fmtr, "log-level": "error", "dir": "mocks/{{.SrcPackageName}}", "pkgname": "mocks", "filename": "mocks_gen.go", "packages": pkgs}
+			files[".mockery.yml"] = core.YAML(cfg)
+			m, err := c.NewModule("c17-multi-"+tmpl+fmtr, files)
+			if err != nil {
+				return err
+			}
+			r := c.RunMockery(m.Dir, nil)
+			c.Ev.Add("transitions", 1)
+			c.Ev.Distinct("states", id)
+			replay := map[string]any{"case": id, "files": files, "exit": r.Exit, "stderr": firstN(r.Stderr, 400)}
+			ok := r.Exit == 0
+			if !ok {
+				c.Report("generate:"+id, fmt.Sprintf("mockery failed (exit %d): %s", r.Exit, firstN(r.Stderr, 400)), replay)
+			}
+			for name, h := range want {
+				if !ok {
+					break
+				}
+				txt, _ := m.Read("mocks/" + name + "/mocks_gen.go")
+				header, _, found := strings.Cut(txt, "\npackage ")
+				if !found {
+					c.Report("nopackage:"+id, "no package clause in mocks/"+name+"/mocks_gen.go", replay)
+					ok = false
+					break
+				}
+				var gotTags []string
+				for _, l := range strings.Split(header, "\n") {
+					if strings.HasPrefix(l, "//go:build ") {
+						gotTags = append(gotTags, strings.TrimPrefix(l, "//go:build "))
+					}
+				}
+				wantTags := []string{}
+				if h.tags != "" {
+					wantTags = []string{h.tags}
+				}
+				if strings.Join(gotTags, "|") != strings.Join(wantTags, "|") {
+					c.Report("constraint-of-other-package:"+id, fmt.Sprintf("mocks of package %s carry the build constraint(s) %q, its own setting is %q", name, gotTags, h.tags), replay)
+					ok = false
+					break
+				}
+				for other, ho := range want {
+					has := ho.boiler != "" && strings.Contains(header, strings.TrimRight(ho.boiler, "\n")+"\n")
+					if has != (other == name && ho.boiler != "") && !(other != name && ho.boiler == "") {
+						c.Report("boilerplate-of-other-package:"+id, fmt.Sprintf("mocks of package %s: boilerplate of package %s present=%v", name, other, has), replay)
+						ok = false
+					}
+				}
+			}
+			m.Remove()
+			if ok {
+				done++
+			}
+			cases = append(cases, cs{})
+		}
+	}
 	c.Ev.Set("evaluations", done+listed)
 	c.Ev.Set("traces_validated_against_impl", done)
 	c.Ev.Set("go_list_truth_assignments", listed)
@@ -258,7 +332,7 @@ func C17(c *core.Ctx) error {
 	c.Ev.Set("distinct_outcomes", len(outcomes))
 	c.Ev.Set("cases", len(cases))
 	c.Ev.Set("exhaustive", done == len(cases))
-	c.Ev.Set("rule", "full product build-constraint expression x boilerplate text x template x formatter, plus the two settings written at every pair of levels {top, package} with an unrelated template-data key at each level, each generated by the real binary; (1) a generated-code marker line precedes every non-comment text and the package clause, (2) the boilerplate bytes appear verbatim before the package clause, (3) for every truth assignment of the expression's tags (GOOS switched for linux) `go list -tags` includes the file iff go/build/constraint evaluates the expression to true; distinct_nontrivial = cases with a constraint or a boilerplate")
+	c.Ev.Set("rule", "full product build-constraint expression x boilerplate text x template x formatter, plus the two settings written at every pair of levels {top, package} with an unrelated template-data key at each level, each generated by the real binary; three source packages whose mocks share one output package name with their own package-level header settings; (1) a generated-code marker line precedes every non-comment text and the package clause, (2) the boilerplate bytes appear verbatim before the package clause, (3) for every truth assignment of the expression's tags (GOOS switched for linux) `go list -tags` includes the file iff go/build/constraint evaluates the expression to true; distinct_nontrivial = cases with a constraint or a boilerplate")
 	c.Ev.Assume("release tags (go1.x) are always true; cgo disabled")
 	c.Ev.Assume("boilerplate-file and mock-build-tags describe the file header, which is rendered from the package's resolved template-data; writing them at interface level is not meaningful and not exercised")
 	return nil
